@@ -524,9 +524,10 @@ def generate(tier, seed):
     # ---- STRONGLY GRADED tensor grids (geometric spacing, cell measures spanning > 16 decades): degree-one patch
     # tests (exact fixed-point oracle at the dyadic DOF locations) and projection identities, relative to the O(1)
     # solution
-    GRADED = {'line': {'axes': [[56, 28, 1, 0]], 'bits': 0}, 'tri': {'axes': [[29, 14, 0]] * 2, 'bits': 29},
-              'quad': {'axes': [[29, 14, 0]] * 2, 'bits': 29}, 'tet': {'axes': [[20, 10, 0]] * 3, 'bits': 20},
-              'hex': {'axes': [[20, 10, 0]] * 3, 'bits': 20}}
+    # grading: just what the class needs (smallest / largest cell measure = 2^-54 < machine eps) and no more
+    GRADED = {'line': {'axes': [[54, 27, 1, 0]], 'bits': 0}, 'tri': {'axes': [[27, 13, 0]] * 2, 'bits': 27},
+              'quad': {'axes': [[27, 13, 0]] * 2, 'bits': 27}, 'tet': {'axes': [[18, 9, 0]] * 3, 'bits': 18},
+              'hex': {'axes': [[18, 9, 0]] * 3, 'bits': 18}}
     for name, (kind, deg, S, vector) in SOLVE_ELEMS.items():
         if deg != 1 or vector or kind in ('wedge', 'line'):
             continue
@@ -543,8 +544,11 @@ def generate(tier, seed):
             recs.append(problem_fields(r, prob))
     for name in PROJECT_ELEMS:
         kind = EL.CATALOGUE[name]['kind']
-        if kind == 'wedge' or any(x in name for x in ('RT', 'N1', 'Morley')):
-            continue                        # DOFs that scale with the cell size (fluxes, circulations, normal derivatives)
+        if kind == 'wedge' or any(x in name for x in ('RT', 'N1', 'Morley', 'QuadP', 'LinePp', 'S2')):
+            continue        # on graded grids only NODAL families: DOFs that scale with the cell size (fluxes, circulations,
+                            # normal derivatives) and hierarchical / serendipity bases give mass matrices whose solution
+                            # depends on the equilibration of the direct solver (splu without equilibration: QuadP3 3e-5,
+                            # LinePp3 6e-7, QuadS2 6e-7, HexS2 1.5e-8; nodal families <= 3e-12 under every solver variant)
         base = {'driver': 'project', 'kind': kind, 'family': kind + '-graded', 'elem': name, 'graded': GRADED[kind]}
         recs.append(dict(base, region='mesh', yseed=int(rng.integers(0, 2 ** 31))))
         recs.append(dict(base, region='cells', cells=[int(j) for j in rng.integers(0, 1000, 5)],
